@@ -1,13 +1,31 @@
 import Dm.Model.DebugTuple
+import Dm.Model.DebugTree
 import Dm.Driver.Wire
+import Dm.Driver.Sexp
 
 /-
 `dt <alt 0|1> <rest tag> <hex name> <ex|nx> <hex flags-text under caller opts> <hex flags-text under fresh {:#?}> <fields>`
 fields := `-` | comma list of `l<hex>` (literal text) | `f` (prints the options it sees)
-Answer: `dm=<hex> std=<hex>`
+          | `m<hex>~<hex>~...` (one `write_str` call per chunk; `-` is the empty chunk)
+Answer: `dm=<hex> std=<hex>`; the crate's side is computed by the call-by-call model `dmTupleCode`
+(`Padded::write_str` as written, one call per chunk), core's side by the text-level `stdTuple`.
+
+`dv <alt> <rest> <hex fc> <hex ff> <tree>`   tree := leaf | `(T <hex name> <ex|nx> tree...)`
+          | `(S <hex name> <ex|nx> <hex field name> tree <hex field name> tree ...)`
+Answer: `dm=<hex> std=<hex>` = `Val.fmt true` / `Val.fmt false`.
 -/
 namespace Dm.DtCmd
-open Dm.Dbg Dm.Wire
+open Dm.Dbg Dm.Wire Dm.Sexp
+
+def parseLeaf (caller : Opts) (fc ff : String) (p : String) : Option FieldScript :=
+  if p == "f" then
+    some (fun (o : Opts) => [if o = caller then fc.toList else ff.toList])
+  else if p.startsWith "l" then
+    (hexDecode (p.drop 1).toString).map fun (t : String) => (fun (_ : Opts) => [t.toList])
+  else if p.startsWith "m" then
+    (((p.drop 1).toString.splitOn "~").mapM hexDecode).map fun (cs : List String) =>
+      (fun (_ : Opts) => cs.map String.toList)
+  else none
 
 def cmdDt (args : List String) : String :=
   match args with
@@ -18,16 +36,44 @@ def cmdDt (args : List String) : String :=
       let ff ← hexDecode ff
       let rest ← rest.toNat?
       let caller : Opts := { alt := alt == "1", rest := rest }
-      let fs ← (if fields == "-" then some [] else (fields.splitOn ",").mapM fun p =>
-        if p == "f" then
-          some (fun (o : Opts) => if o = caller then fc.toList else ff.toList : FieldFmt)
-        else if p.startsWith "l" then
-          (hexDecode (p.drop 1).toString).map fun (t : String) => (fun (_ : Opts) => t.toList : FieldFmt)
-        else none)
+      let fs ← (if fields == "-" then some [] else (fields.splitOn ",").mapM (parseLeaf caller fc ff))
       let ex := fin == "ex"
-      let d := dmTuple name.toList fs ex caller
-      let s := stdTuple name.toList fs ex caller
+      let d := dmTupleCode name.toList fs ex caller
+      let s := stdTuple name.toList (fs.map fun (sc : FieldScript) (o : Opts) => (sc o).flatten) ex caller
       pure s!"dm={hexEncode (String.ofList d)} std={hexEncode (String.ofList s)}").getD "bad-op"
+  | _ => "bad-op"
+
+partial def toVal (caller : Opts) (fc ff : String) : Sexp → Option Val
+  | .atom a => (parseLeaf caller fc ff a).map fun sc => Val.leaf fun o => (sc o).flatten
+  | .list (.atom "T" :: .atom name :: .atom fin :: kids) => do
+    let name ← hexDecode name
+    let ks ← kids.mapM (toVal caller fc ff)
+    pure (.tuple name.toList (Vals.ofList ks) (fin == "ex"))
+  | .list (.atom "S" :: .atom name :: .atom fin :: kids) => do
+    let name ← hexDecode name
+    let rec pairs : List Sexp → Option (List (List Char) × List Val)
+      | [] => some ([], [])
+      | .atom n :: k :: r => do
+        let n ← hexDecode n
+        let v ← toVal caller fc ff k
+        let (ns, vs) ← pairs r
+        pure (n.toList :: ns, v :: vs)
+      | _ => none
+    let (ns, vs) ← pairs kids
+    pure (.strukt name.toList ns (Vals.ofList vs) (fin == "ex"))
+  | _ => none
+
+def cmdDv (rest : String) : String :=
+  match rest.splitOn " " with
+  | alt :: r :: fc :: ff :: tree =>
+    (do
+      let fc ← hexDecode fc
+      let ff ← hexDecode ff
+      let r ← r.toNat?
+      let caller : Opts := { alt := alt == "1", rest := r }
+      let sx ← Dm.Sexp.parse (" ".intercalate tree)
+      let v ← toVal caller fc ff sx
+      pure s!"dm={hexEncode (String.ofList (v.fmt true caller))} std={hexEncode (String.ofList (v.fmt false caller))}").getD "bad-op"
   | _ => "bad-op"
 
 end Dm.DtCmd
